@@ -5,6 +5,7 @@ import (
 	"os"
 	"runtime"
 	"runtime/debug"
+	"sync"
 	"time"
 )
 
@@ -24,6 +25,8 @@ func (o Outcome) OK() bool { return !o.TimedOut && o.Panic == nil }
 func (o Outcome) String() string {
 	switch {
 	case o.TimedOut:
+		armHangExit()
+
 		return "call did not return within the watchdog deadline"
 	case o.Panic != nil:
 		return fmt.Sprintf("panic: %v\n%s", o.Panic, o.Stack)
@@ -157,4 +160,39 @@ func StableGoroutines() int {
 	}
 
 	return last
+}
+
+// BoundedClose runs a cleanup (Close of the subject) that can block forever on a tree that breaks the
+// property - the check has already failed by then - without wedging the process, so the failure is
+// reported instead of a timeout.
+func BoundedClose(f func() error) {
+	done := make(chan struct{})
+	go func() {
+		defer close(done)
+		defer func() { _ = recover() }()
+		_ = f()
+	}()
+	select {
+	case <-done:
+	case <-time.After(3 * time.Second):
+	}
+}
+
+var hangOnce sync.Once
+
+// armHangExit is reached only when a check is already reporting "a call into the code under test did not
+// return" (Outcome.String is used for failure messages only). The blocked call can hold locks that wedge
+// the rest of the case (cleanup, shrinking); if the process is still alive long after the failure was
+// decided, it dumps all goroutines and exits with a marker the driver turns into the violation, instead
+// of the failure being lost in a wall-clock timeout.
+func armHangExit() {
+	hangOnce.Do(func() {
+		go func() {
+			time.Sleep(time.Duration(EnvInt("VERIF_HANG_EXIT_S", 240)) * time.Second)
+			buf := make([]byte, 1<<20)
+			buf = buf[:runtime.Stack(buf, true)]
+			fmt.Printf("VERIF-HANG a guarded call into the code under test did not return and the process stayed wedged afterwards\n%s\n", buf)
+			os.Exit(7)
+		}()
+	})
 }
